@@ -68,7 +68,7 @@ Definition dom_ok (c : arr Q * Q * list bool) : bool :=
 # ------------------------------------------------------------------ literals
 def arrlit(a):
     a = np.asarray(a)
-    return "(%s, %s)" % (natlist(a.shape), qlist([frac(x) for x in a.ravel(order="C").tolist()]))
+    return "(%s, %s)" % (natlist(a.shape), qlist([fin(x) for x in a.ravel(order="C").tolist()]))
 
 
 def gamelit(arrs):
@@ -114,6 +114,63 @@ class Watch:
                                   {"call": label, "array": k, "info": info, "before": s.tolist()}, np.asarray(a).tolist(), s.tolist())
 
 
+class BadOutput(Exception):
+    pass
+
+
+def fin(x):
+    """exact Fraction of a finite number; anything else is a malformed output (never rendered into a .v file)"""
+    try:
+        xf = float(x)
+    except Exception:
+        raise BadOutput("not a number: %r" % (x,))
+    if xf != xf or xf in (math.inf, -math.inf):
+        raise BadOutput("not finite: %r" % (x,))
+    return frac(x)
+
+
+def nat_in(x, bound, what="index"):
+    """x as a Python int with 0 <= x < bound, else BadOutput"""
+    if isinstance(x, (bool, np.bool_)) or not isinstance(x, (int, np.integer)):
+        if not (isinstance(x, np.ndarray) and x.ndim == 0 and np.issubdtype(x.dtype, np.integer)):
+            raise BadOutput("%s is not an integer: %r" % (what, x))
+    xi = int(x)
+    if not 0 <= xi < bound:
+        raise BadOutput("%s out of range [0,%d): %r" % (what, bound, x))
+    return xi
+
+
+def nat_vec(v, bound, what="indices"):
+    a = np.asarray(v)
+    if a.ndim != 1 or (a.size and not np.issubdtype(a.dtype, np.integer)):
+        raise BadOutput("%s is not a 1-d integer array: %r" % (what, v))
+    return [nat_in(x, bound, what) for x in a.tolist()]
+
+
+def is_pure(a):
+    return isinstance(a, (int, np.integer)) and not isinstance(a, (bool, np.bool_))
+
+
+INT_DRESS = [int, np.int64, np.int32, np.intp, np.int16, np.uint8]
+
+
+def dress_action(rng, a):
+    """the same pure action as another integer type (NumPy integer scalars as produced by argmax / array indexing)"""
+    return rng.choice(INT_DRESS)(a) if is_pure(a) else a
+
+
+def dress_profile(rng, prof):
+    """the same profile with pure actions as NumPy integers and the container as tuple / list / integer array"""
+    prof = [dress_action(rng, a) for a in prof]
+    if all(is_pure(a) for a in prof):
+        mode = rng.randrange(4)
+        if mode == 0:
+            return np.array([int(a) for a in prof], dtype=rng.choice([np.int64, np.int32, np.intp]))
+        if mode == 1:
+            return list(prof)
+    return tuple(prof) if rng.random() < 0.7 else list(prof)
+
+
 def game_arrays(g):
     return [p.payoff_array for p in g.players]
 
@@ -144,7 +201,9 @@ def state_of(g):
     items = []
     for a in np.ndindex(*g.nums_actions):
         v = g[a] if N > 1 else [g[int(a[0])]]
-        items.append([frac(x) for x in np.asarray(v).tolist()])
+        if np.shape(v) != (N,):
+            raise BadOutput("g[%r] has shape %r" % (a, np.shape(v)))
+        items.append([fin(x) for x in np.asarray(v).tolist()])
     return ([np.array(p.payoff_array) for p in g.players], np.array(g.payoff_profile_array), items)
 
 
@@ -320,11 +379,16 @@ def run(ctx):
                     ref = {tuple(a[:j]) + ((a[j] if a[j] < k else a[j] - 1),) + tuple(a[j + 1:]): v for a, v in ref.items() if a[j] != k}
             elif o == "gam":
                 s = W.call("to_gam", game_arrays(g), lambda: to_gam(g), ops_desc)
-                toks = s.split()
-                n_ = int(toks[0]); nums_ = [int(t) for t in toks[1:1 + n_]]
-                pay = [Fraction(t) if "." not in t and "e" not in t.lower() else frac(float(t)) for t in toks[1 + n_:]]
-                gam_cases.append(tup(gamelit(game_arrays(g)), tup("%d%%nat" % n_, natlist(nums_), qlist(pay))))
-                gam_meta.append({"nums": list(cur_nums), "string": s[:200]})
+                try:
+                    toks = s.split()
+                    n_ = nat_in(int(toks[0]), 100, "N")
+                    nums_ = [nat_in(int(t), 10**6, "action count") for t in toks[1:1 + n_]]
+                    pay = [Fraction(t) if "." not in t and "e" not in t.lower() else fin(float(t)) for t in toks[1 + n_:]]
+                    gam_cases.append(tup(gamelit(game_arrays(g)), tup("%d%%nat" % n_, natlist(nums_), qlist(pay))))
+                    gam_meta.append({"nums": list(cur_nums), "string": s[:200]})
+                except Exception as e:
+                    ctx.fail("gam_tokens_unreadable", "to_gam wrote something that is not 'N, action counts, numbers': %r" % (e,),
+                             {"init": init_kind, "nums": nums, "ops": ops_desc, "string": s[:300]}, repr(e), None)
                 ops_lit.append("OGam")
                 ops_desc.append(["gam"])
                 try:
@@ -418,22 +482,28 @@ def run(ctx):
                     opps.append(tuple(dyadic_simplex(rng, nums[pl]) if rng.random() < 0.7 else rng.randrange(nums[pl]) for pl in others))
             pvl, brl, ibrl = [], [], []
             for opp in opps:
-                arg = None if N == 1 else (opp[0] if N == 2 else opp)
+                # the call receives the profile in a random integer dress (Python int, NumPy integer scalars, list / tuple /
+                # integer array); the model and the oracle see the plain profile
+                dressed = dress_profile(rng, opp) if N >= 3 else opp
+                arg = None if N == 1 else (dress_action(rng, opp[0]) if N == 2 else dressed)
+                dress = "none" if N == 1 else (type(arg).__name__ if N == 2 else type(dressed).__name__ + ":" + ",".join(type(a).__name__ for a in dressed))
+                ctx.count("action_dress:" + (dress if N <= 2 else dress.split(":")[0]))
                 mixed = any(not isinstance(a, int) for a in opp)
                 try:
                     pv = W.call("Player.payoff_vector", GA, lambda: p.payoff_vector(arg))
                     if np.shape(pv) != (nums[i],):
-                        raise ValueError("payoff_vector has shape %r" % (np.shape(pv),))
+                        raise BadOutput("payoff_vector has shape %r" % (np.shape(pv),))
+                    pvq = [fin(x) for x in np.asarray(pv).tolist()]
                 except Exception as e:
-                    ctx.fail("raises", "payoff_vector raised / returned a wrong shape on a valid opponent profile: %r" % (e,), {"data": data, "player": i, "opponents": opp}, repr(e), "a vector of length %d" % nums[i])
+                    ctx.fail("raises", "payoff_vector raised / returned a malformed value on a valid opponent profile: %r" % (e,),
+                             {"data": data, "player": i, "opponents": opp, "passed_as": dress}, repr(e), "a vector of length %d" % nums[i])
                     continue
-                pvq = [frac(x) for x in np.asarray(pv).tolist()]
                 exp = exp_payoffs(data, N, nums, i, opp)
                 ident = ("pv", tuple(nums), kind, i, repr(opp))
                 ctx.case(ident, nontrivial=nontriv(nums, mixed), sample={"payoff_vector": {"nums": nums, "player": i, "opponents": opp}, "impl": pv})
                 if pvq != exp:
                     ctx.fail("payoff_vector", "payoff_vector is not the expected payoff of each own action",
-                             {"data": data, "player": i, "opponents": opp}, pv, exp)
+                             {"data": data, "player": i, "opponents": opp, "passed_as": dress}, pv, exp)
                 pvl.append(tup(actslit(opp), qlist(pvq)))
                 # best responses
                 for tolv in (None, 0.0, 0.5, 1.0) if not big else (None, 1.0):
@@ -444,9 +514,11 @@ def run(ctx):
                         brs = W.call("Player.best_response(tie_breaking=False)", GA,
                                      lambda: p.best_response(arg, tie_breaking=False, tol=tolv, payoff_perturbation=pert))
                         br = W.call("Player.best_response", GA, lambda: p.best_response(arg, tol=tolv, payoff_perturbation=pert))
+                        brs = nat_vec(brs, nums[i], "best_response(tie_breaking=False)")
+                        br = nat_in(br, nums[i], "best_response")
                     except Exception as e:
-                        ctx.fail("raises", "best_response raised on valid arguments (tol >= 0): %r" % (e,),
-                                 {"data": data, "player": i, "opponents": opp, "tol": tolv, "perturbation": pert}, repr(e), "a best response")
+                        ctx.fail("raises", "best_response raised / returned a malformed value on valid arguments (tol >= 0): %r" % (e,),
+                                 {"data": data, "player": i, "opponents": opp, "passed_as": dress, "tol": tolv, "perturbation": pert}, repr(e), "a best response")
                         continue
                     tq = TOL if tolv is None else frac(tolv)
                     vals = [e + (frac(pert[k]) if pert is not None else 0) for k, e in enumerate(exp)]
@@ -457,12 +529,32 @@ def run(ctx):
                                  {"data": data, "player": i, "opponents": opp, "tol": tolv, "perturbation": pert}, [brs, br], ebrs)
                     if len(ebrs) > 1:
                         ctx.count("br:ties")
+                    # tie_breaking='random': for several seeds the answer must lie in the tol-best-response set
+                    if len(ebrs) > 1 or rng.random() < 0.15:
+                        for seed in range(6 if len(ebrs) > 1 else 2):
+                            rsd = np.random.RandomState(seed) if seed % 2 else np.random.default_rng(seed)
+                            try:
+                                rb = W.call("Player.best_response(tie_breaking='random')", GA,
+                                            lambda: p.best_response(arg, tie_breaking="random", tol=tolv, payoff_perturbation=pert, random_state=rsd))
+                                rb = nat_in(rb, nums[i], "best_response(tie_breaking='random')")
+                            except Exception as e:
+                                ctx.fail("raises", "best_response(tie_breaking='random') raised / returned a malformed value: %r" % (e,),
+                                         {"data": data, "player": i, "opponents": opp, "tol": tolv, "perturbation": pert, "seed": seed}, repr(e), ebrs)
+                                continue
+                            ctx.count("br_random:calls")
+                            if rb not in ebrs:
+                                ctx.fail("best_response_random", "best_response(tie_breaking='random') returned an action outside the tol-best-response set",
+                                         {"data": data, "player": i, "opponents": opp, "tol": tolv, "perturbation": pert, "seed": seed}, rb, ebrs)
                     brl.append(tup(actslit(opp), optlit(pert, lambda e: qlist([frac(x) for x in e.tolist()]), "list Q"), qlit(tq),
                                    natlist(brs), "%d%%nat" % int(br)))
                     owns = list(range(nums[i])) + [dyadic_simplex(rng, nums[i])]
                     for own in owns if not big else owns[-2:]:
+                        own_arg = dress_action(rng, own)
                         try:
-                            r = bool(W.call("Player.is_best_response", GA, lambda: p.is_best_response(own, arg, tol=tolv)))
+                            r = W.call("Player.is_best_response", GA, lambda: p.is_best_response(own_arg, arg, tol=tolv))
+                            if not isinstance(r, (bool, np.bool_)):
+                                raise BadOutput("is_best_response returned %r" % (r,))
+                            r = bool(r)
                         except Exception as e:
                             ctx.fail("raises", "is_best_response raised on valid arguments: %r" % (e,), {"data": data, "player": i, "own": own, "opponents": opp, "tol": tolv}, repr(e), None)
                             continue
@@ -484,8 +576,12 @@ def run(ctx):
         nl = []
         for prof in profs:
             for tolv in (None, 1.0):
+                prof_arg = dress_profile(rng, prof) if N >= 2 else (dress_action(rng, prof[0]),)
                 try:
-                    r = bool(W.call("NormalFormGame.is_nash", GA, lambda: g.is_nash(prof, tol=tolv)))
+                    r = W.call("NormalFormGame.is_nash", GA, lambda: g.is_nash(prof_arg, tol=tolv))
+                    if not isinstance(r, (bool, np.bool_)):
+                        raise BadOutput("is_nash returned %r" % (r,))
+                    r = bool(r)
                 except Exception as e:
                     ctx.fail("raises", "is_nash raised on a valid profile: %r" % (e,), {"data": data, "profile": prof, "tol": tolv}, repr(e), None)
                     continue
@@ -513,6 +609,25 @@ def run(ctx):
         bad = ctx.coq_check(name, IMPORTS, ctype, okf, cases, chunk=max(1, len(cases) // 12), preamble=PRE)
         for i in bad:
             ctx.mismatch("C14.Model.%s vs normal_form_game.%s" % (name, what), meta[i])
+
+    # ---- Player.random_choice(actions): a member of `actions` (also when they are not the leading block)
+    for _ in range(60 if thorough else 25):
+        n = rng.randrange(2, 6)
+        pl = Player(rand_payoffs(rng, (n, rng.randrange(1, 4)), "int"))
+        acts = sorted(rng.sample(range(n), rng.randrange(1, n + 1)))
+        acts_arg = rng.choice([list, tuple, np.array])(acts)
+        for seed in range(4):
+            rsd = np.random.RandomState(seed) if seed % 2 else np.random.default_rng(seed)
+            try:
+                c = nat_in(pl.random_choice(actions=acts_arg, random_state=rsd), n, "random_choice(actions)")
+                c0 = nat_in(pl.random_choice(random_state=rsd), n, "random_choice()")
+            except Exception as e:
+                ctx.fail("raises", "random_choice raised / returned a malformed value: %r" % (e,), {"num_actions": n, "actions": acts, "seed": seed}, repr(e), acts)
+                continue
+            ctx.case(("random_choice", n, tuple(acts), seed), nontrivial=(acts != list(range(len(acts)))))
+            ctx.count("random_choice:" + ("leading block" if acts == list(range(len(acts))) else "non-leading actions"))
+            if c not in acts:
+                ctx.fail("random_choice", "random_choice(actions) returned an action that is not in `actions`", {"num_actions": n, "actions": acts, "seed": seed}, c, acts)
 
     # ============================================================ 3. domination
     dom_cases, dom_meta = [], []
@@ -686,6 +801,17 @@ def oracle_views(ctx, g, ref, desc, tol):
         return
     for a in np.ndindex(*nums):
         item = g[a] if N > 1 else [g[int(a[0])]]
+        # the same profile given as NumPy integers / list / integer array must read the same payoffs
+        alt_key = dress_profile(ctx.rng, a) if N > 1 else dress_action(ctx.rng, a[0])
+        try:
+            alt = g[alt_key] if N > 1 else [g[alt_key]]
+            same = np.shape(alt) == (N,) and all(frac(x) == frac(y) for x, y in zip(np.asarray(alt).tolist(), np.asarray(item).tolist()))
+        except Exception as e:
+            alt, same = repr(e), False
+        if not same:
+            ctx.fail("getitem_integer_types", "g[profile] with the profile given as %s differs from g[tuple of ints]" % type(alt_key).__name__,
+                     dict(desc, profile=list(a), passed_as=type(alt_key).__name__), alt, item)
+            return
         for i in range(N):
             rot = tuple(a[i:]) + tuple(a[:i])
             views = {"payoff_profile_array": prof[a][i], "g[a]": item[i], "players[i].payoff_array": g.players[i].payoff_array[rot],
